@@ -237,6 +237,7 @@ class Env:
         self.store = SqliteWorkflowStore(self.cs, create_tables=True)
         self.queue = SqliteQueue(self.cs)
         self.queue._create_table()
+        self.raw = core.raw_connect(os.path.join(self.dir, "rt.db"))
         self.S, self.st = strategies(large)
         self.n = 0
         self.tables = None
@@ -250,6 +251,28 @@ class Env:
 
     def close(self) -> None:
         shutil.rmtree(self.dir, ignore_errors=True)
+
+    def other(self, fn):
+        """Run fn(store) on another thread = through an INDEPENDENT connection (stabilize keeps one connection per
+        thread): what another worker sees, i.e. committed data only."""
+        import threading
+
+        box: dict = {}
+
+        def body():
+            try:
+                box["r"] = fn(self.store)
+            except BaseException as e:  # noqa: BLE001
+                box["e"] = e
+            finally:
+                core.close_thread_connections()
+
+        th = threading.Thread(target=body)
+        th.start()
+        th.join()
+        if "e" in box:
+            raise box["e"]
+        return box["r"]
 
 
 class CaseRun:
@@ -377,13 +400,37 @@ class CaseRun:
             o = op["op"]
             if o == "store":
                 wf = self.build_workflow(op)
-                store.store(wf)
+                self.covered.add(("store_how", op.get("how", "store"), ""))
+                if op.get("how") == "add_stage" and len(wf.stages) > 1:
+                    late = wf.stages[1:]
+                    wf.stages = wf.stages[:1]
+                    store.store(wf)
+                    for stg in late:                 # the second way to insert a stage
+                        stg.execution = wf
+                        store.add_stage(stg)
+                else:
+                    store.store(wf)
                 fresh_w, after_ss = op["w"], False
             elif o == "retrieve":
                 self.check_workflow(store.retrieve(self.wf_id), op["expect"], k, fresh_w, after_ss)
+                n0 = len(self.mism)
+                try:
+                    got = self.env.other(lambda st: st.retrieve(self.wf_id))
+                except Exception as e:  # noqa: BLE001
+                    self.mism.append({"formula": "ReadBack", "where": "workflow (independent connection)", "field": "<workflow>",
+                                      "class": None, "op": k, "expected": "the stored workflow", "observed": short(repr(e))})
+                else:
+                    self.check_workflow(got, op["expect"], k, fresh_w, after_ss)
+                for m in self.mism[n0:]:
+                    m["where"] += " (independent connection)" if "independent" not in m["where"] else ""
             elif o == "retrieve_stage":
                 got = store.retrieve_stage(self.stage_ids[0])
                 self.check_stage(1, got, op["expect"]["st"], op["expect"]["tk"], k, fresh_w, after_ss)
+                n0 = len(self.mism)
+                got = self.env.other(lambda st: st.retrieve_stage(self.stage_ids[0]))
+                self.check_stage(1, got, op["expect"]["st"], op["expect"]["tk"], k, fresh_w, after_ss)
+                for m in self.mism[n0:]:
+                    m["where"] += " (independent connection)"
             elif o == "store_stage":
                 fresh_w, after_ss = op["w"], True
                 stg = store.retrieve_stage(self.stage_ids[0])
@@ -441,7 +488,13 @@ class CaseRun:
                     continue
                 tn = get_message_type_name(got)
                 path = [h["path"] for h in hist if h["op"] == "push"][len(delivered)]
-                delivered.append(got)
+                ack = op.get("ack", True)
+                if ack:
+                    delivered.append(got)
+                else:
+                    path += ", first delivery"
+                if path.startswith(("direct", "txn")) and not ack:
+                    self.covered.add(("redelivery", "unacked", ""))
                 if tn != exp["type"]:
                     self.mism.append({"formula": "PathsAgree", "where": f"poll({path})", "field": "<type>", "class": None, "op": k,
                                       "expected": exp["type"], "observed": tn})
@@ -450,11 +503,42 @@ class CaseRun:
                     for f, tok in exp["f"].items():
                         want = self.val(f"msg.{tn}.{rr}", "msg", f, tok, tn)
                         self.diff("PathsAgree", f"poll({path}) {tn}", f, tok, want, getattr(got, f), k)
-                queue.ack(got)
+                if ack:
+                    queue.ack(got)
+                else:
+                    scribble(got)         # the consumer works on ITS copy, then dies: the lock lapses, no ack, no reschedule
+                    self.env.raw.execute("UPDATE queue_messages SET locked_until = '2000-01-01T00:00:00+00:00' WHERE id = ?",
+                                         (int(got.message_id),))
         extra = queue.poll_one()
         if extra is not None:
             self.mism.append({"formula": "PathsAgree", "where": "poll", "field": "<message>", "class": None, "op": len(hist),
                               "expected": "queue empty", "observed": short(extra)})
+
+
+def scribble(msg) -> None:
+    """What a consumer may do to the message object it was handed: change nested values in place, record an error."""
+    import dataclasses
+
+    for f in dataclasses.fields(msg):
+        if f.name in ("message_id", "attempts", "max_attempts", "created_at"):
+            continue
+        v = getattr(msg, f.name)
+        if isinstance(v, dict):
+            for k in list(v):
+                if isinstance(v[k], (dict, list)):
+                    v[k].clear()
+            v["scribbled"] = True
+        elif isinstance(v, list):
+            v.append("scribbled")
+        elif isinstance(v, str):
+            try:
+                setattr(msg, f.name, v + "-scribbled")
+            except Exception:  # noqa: BLE001
+                pass
+    try:
+        msg.set_error_context(RuntimeError("consumer failed"))
+    except Exception:  # noqa: BLE001
+        pass
 
 
 _ENV: Env | None = None
@@ -693,6 +777,11 @@ def run(pid: str, tier: str, seed: int) -> int:
         paths = sorted(x[1] for x in agg["covered"] if x[0] == "save_path")
         if paths != sorted(SAVE_PATHS):
             rep.machinery_failure(f"store_stage save paths exercised: {paths}, wanted all of {SAVE_PATHS}")
+        hows = sorted(x[1] for x in agg["covered"] if x[0] == "store_how")
+        if hows != ["add_stage", "store"]:
+            rep.machinery_failure(f"stage insert paths exercised: {hows}, wanted store and add_stage")
+        if ("redelivery", "unacked", "") not in agg["covered"]:
+            rep.machinery_failure("no unacknowledged delivery followed by a redelivery was replayed")
         missing = sorted(want_cov - agg["covered"])
         if missing:
             rep.machinery_failure(f"vacuity: {len(missing)} (field, class) pairs of the specification were never replayed, e.g. {missing[:5]}")
@@ -728,7 +817,9 @@ def run(pid: str, tier: str, seed: int) -> int:
             "samples": agg["samples"], "cases_enumerated": total_cases, "cases_replayed": agg["cases"],
             "values_written_and_compared": agg["values"], "hypothesis_examples_per_case": examples, "large_value_chars": large,
             "ulid_task_pairs_created_within_one_millisecond": agg["same_ms"],
-            "store_stage_save_paths": paths, "field_class_pairs_covered": len(agg["covered"] & want_cov), "field_class_pairs_in_spec": len(want_cov),
+            "store_stage_save_paths": paths, "stage_insert_paths": hows,
+            "reads": "every retrieve / retrieve_stage through the writer's connection AND through an independent connection (other thread)",
+            "redelivery": "every other rotation: first delivery unacknowledged, consumer mutates its copy, lock lapses, delivered again", "field_class_pairs_covered": len(agg["covered"] & want_cov), "field_class_pairs_in_spec": len(want_cov),
             "operations_replayed": agg["ops"],
             "tlc_states": states, "mismatch_groups": len(groups), "mismatches": len(agg["mism"]),
             "fields_covered": {"workflow": len(tables["wf"]), "stage": len(tables["st"]) + 2, "task": len(tables["tk"]) + 2,
